@@ -568,17 +568,26 @@ func (s *socket) Close(discard bool) {
 	}
 	socket_log.Debug("readyState updated from open to closing")
 
-	if length := s.writeBuffer.Len(); length > 0 {
-		socket_log.Debug("there are %d remaining packets in the buffer, waiting for the 'drain' event", length)
-		s.Once("drain", func(...any) {
+	// listen for 'drain' before looking at the buffer: looking first lets a flush
+	// slip in between the test and the registration, after which no 'drain' ever
+	// comes and the session stays "closing" until the heartbeat gives up on it.
+	var once sync.Once
+	onDrain := func(...any) {
+		once.Do(func() {
 			socket_log.Debug("all packets have been sent, closing the transport")
 			s.closeTransport(discard)
 		})
+	}
+	s.Once("drain", onDrain)
+
+	if length := s.writeBuffer.Len(); length > 0 {
+		socket_log.Debug("there are %d remaining packets in the buffer, waiting for the 'drain' event", length)
 		return
 	}
 
 	socket_log.Debug("the buffer is empty, closing the transport right away")
-	s.closeTransport(discard)
+	s.RemoveListener("drain", onDrain)
+	onDrain()
 }
 
 // Closes the underlying transport.
